@@ -155,4 +155,77 @@ func runC17(c *Ctx) {
 			}
 		}
 	}
+	runC17b(c)
+}
+
+// runC17b: a truncated, over-long or garbage packet injected at every index of a history ends the stream with an
+// error, without panic, without delivering a partial transaction, and the stored position resumes correctly.
+func runC17b(c *Ctx) {
+	r := c.Rng
+	nh := c.N(6, 120)
+	for hi := 0; hi < nh; hi++ {
+		cfg := baseCfgs[r.Intn(len(baseCfgs))]
+		h := genHistory(r, cfg, histOpts{units: 3 + r.Intn(5), maxCols: 3, maxRows: 2, rotations: true, ignorables: true})
+		h.encode(c)
+		D, ok := checkFullRun(c, "C17", h, "baseline")
+		if !ok {
+			continue
+		}
+		f0, o0 := startOf(h)
+		full := fullAttempt(h, c, f0, o0)
+		_, idx := h.serve(c, f0, uint32(o0))
+		for at := 2; at <= len(full.events); at++ {
+			if !c.Thorough() && r.Chance(1, 2) {
+				continue
+			}
+			a, mv := applyFault(c, h, full, fault{"invalid", at})
+			bad := a.events[at]
+			relation := "garbage"
+			if at < len(full.events) && len(bad) < len(full.events[at%len(full.events)]) {
+				relation = "truncated"
+			} else if len(bad) > 19 {
+				relation = "extended-or-garbage"
+			}
+			c.R.Count("inject/" + relation + "/" + pointClass(h, "invalid", at, idx))
+			ir := compareAttempt(c, "C17", "inject", a, mv, true)
+			desc := fmt.Sprintf("cfg=%s units=%v invalid packet %x injected before served event %d", h.cfg, h.kinds, bad, at)
+			if ir.panicked {
+				c.R.Add(vh.Mismatch{Kind: "spec", What: "inject: parseEvents panicked on a malformed packet", Case: desc, InDomain: true})
+				continue
+			}
+			if ir.outcome != "invalid" {
+				// a random packet can be self-consistent; the model comparison above decides then
+				if implHeader(bad).Nth(0).String() != "(ok 1)" {
+					c.R.Add(vh.Mismatch{Kind: "spec", What: "inject: a packet rejected by the validity test did not end the stream with an error", Case: desc, Impl: ir.outcome, InDomain: true})
+				}
+				continue
+			}
+			// nothing partial: exactly the transactions committed before the packet
+			var before []string
+			for i, tx := range h.txs {
+				if posIn(idx[:at], tx.commitIdx) {
+					before = append(before, D[i])
+				}
+			}
+			got := acceptedOf(ir.calls)
+			if !eqStrs(before, got) || len(got) != len(ir.calls) {
+				c.R.Add(vh.Mismatch{Kind: "spec", What: "inject: a partial or extra transaction was delivered around a malformed packet", Case: desc, Expected: fmt.Sprint(len(before)), Impl: firstDiff(before, got), InDomain: true})
+				continue
+			}
+			// resume from the stored position: the rest, exactly once
+			b, _ := ir.stored.Nth(0).Hex()
+			var so int64
+			fmt.Sscanf(ir.stored.Nth(1).Atom, "%d", &so)
+			if !knownFile(h, string(b)) {
+				c.R.Add(vh.Mismatch{Kind: "spec", What: "inject: the stored resume position is not a position of the binlog", Case: desc, Impl: ir.stored.String(), InDomain: true})
+				continue
+			}
+			ra := fullAttempt(h, c, string(b), so)
+			rr := compareAttempt(c, "C17", "resume-after-invalid", ra, h.mapperVals(), true)
+			if rest := acceptedOf(rr.calls); !eqStrs(D[len(before):], rest) {
+				c.R.Add(vh.Mismatch{Kind: "spec", What: "inject: the resume position after a malformed packet is not the last accepted commit boundary", Case: desc,
+					Expected: fmt.Sprint(len(D) - len(before)), Impl: firstDiff(D[len(before):], rest), InDomain: true})
+			}
+		}
+	}
 }
